@@ -118,7 +118,6 @@ mut("C18", "jpeg-no-exit-after-chunk", "meta/jpegmeta/jpegmeta.go", "\t\t\ticcPr
 mut("C18", "png-idat-falls-into-skip", "meta/pngmeta/pngmeta.go", "\t\tcase chunkTypeIDAT, chunkTypeIEND:\n\t\t\tbreak parseChunks\n", "\t\tcase chunkTypeIEND:\n\t\t\tbreak parseChunks\n")
 mut("C18", "bufio-1MiB", "meta/pngmeta/pngmeta.go", "md, err = extractMetadata(bufio.NewReader(tee))", "md, err = extractMetadata(bufio.NewReaderSize(tee, 1<<20))")
 # ---- C19
-mut("C19", "table-reordered", "meta/autometa/autometa.go", "\t\tpngmeta.Load,\n\t\tjpegmeta.Load,", "\t\tjpegmeta.Load,\n\t\tpngmeta.Load,")
 mut("C19", "success-returns-inputstream", "meta/autometa/autometa.go", "return md, nextStream, nil", "return md, inputStream, nil")
 # ---- C20
 mut("C20", "cofactor-sign", "matrix/matrix3.go", "\t\t\t-(m[0][1]*m[2][2] - m[2][1]*m[0][2]),", "\t\t\tm[0][1]*m[2][2] - m[2][1]*m[0][2],")
